@@ -198,6 +198,16 @@ func (p *Peer) ReadAll() ([]Reply, error) {
 	}
 }
 
+// ReadUntilStall reads replies until the server is idle waiting for the next command (nil
+// error), closes (io.EOF) or the watchdog expires.
+func (p *Peer) ReadUntilStall() ([]Reply, error) {
+	out, err := p.ReadAll()
+	if errors.Is(err, memconn.ErrStalled) {
+		return out, nil
+	}
+	return out, err
+}
+
 // CloseWrite half-closes towards the server (the server sees EOF after draining).
 func (p *Peer) CloseWrite() {
 	if p.TLS != nil {
